@@ -79,6 +79,9 @@ class TrackedIter:
         ra = beh.get("raise_at")
         if ra and ra[0] == "iter" and ra[1] == self.k:
             app.raise_or_recall(self.idx, beh, self.sr)
+        if beh.get("pause_after") is not None and self.k == beh["pause_after"]:
+            # a producer that runs ahead of the client only so far: waits until the client has received pause_until_rx bytes (E3 only)
+            app.step(self.idx, "pause", beh.get("pause_until_rx", 1))
         if beh.get("stall_after") is not None and self.k == beh["stall_after"]:
             app.step(self.idx, "stall", self.k)   # a streaming / long-poll application that now waits (for ever)
         if self.k >= len(self.chunks):
